@@ -77,9 +77,16 @@ def _raw_set(name: str, routines: list[list[dict]], table: list) -> dict:
     return {"name": name, "table": table, "routines": [{"type": "GENERIC", "linked_to": 0, "linked_to_name": None, "coro": None, "ops": r} for r in routines]}
 
 
-RAW_FALLBACK_H = _raw_set("fallback-after-branch-lookup", [[_op(0, "BranchDebug", 0, 1), _op(1, "a"), _op(2, "BranchDebug", 0, 1)]], [["int", 1], ["int", 0]])
+# Routine sets that make convert() fall back to SsbScript AFTER a common-vertex lookup stored {edge ids: None} (found by
+# enumerating all op lists of length 3 over {op, Branch, Jump, Switch, Case, Return, ctx} and reading the cache afterwards).
+# Which of them leaves a residue depends on the repository version, hence several; all leave the key '1,2'.
+RAW_FALLBACK_H = _raw_set("fallback-after-branch-lookup", [[_op(0, "BranchDebug", 0, 1), _op(1, "a", 3), _op(2, "BranchDebug", 0, 0)]], [["int", 1], ["int", 0], ["int", 2], ["str", "two\nlines"]])
+RAW_FALLBACK_H2 = _raw_set("fallback-after-branch-lookup-b", [[_op(0, "BranchDebug", 0, 1), _op(1, "a"), _op(2, "BranchDebug", 0, 1)]], [["int", 1], ["int", 0]])
+RAW_FALLBACK_H3 = _raw_set("fallback-after-branch-lookup-c", [[_op(0, "BranchDebug", 0, 1), _op(1, "BranchDebug", 0, 1), _op(2, "BranchDebug", 0, 0)]], [["int", 1], ["int", 0]])
+# no Branch op, one switch whose first lookup has the edge-id string '1,2' and a non-None result
 RAW_SWITCH_O = _raw_set("switch-only", [[_op(0, "Jump", 0), _op(1, "Switch", 1), _op(2, "Case", 2, 3), _op(3, "Jump", 4)]], [["int", 1], ["const", "$a"], ["int", 2], ["int", 3], ["int", 0]])
-RAW_FALLBACK_CASE = _raw_set("fallback-case-without-switch", [[_op(0, "BranchDebug", 0, 1), _op(1, "Case", 0, 1), _op(2, "a", 2), _op(3, "Return")]], [["int", 1], ["int", 3], ["str", "two\nlines"]])
+RAW_POOL_SETS = (RAW_FALLBACK_H, RAW_FALLBACK_H2, RAW_SWITCH_O)
+RAW_ATTACK_H = (RAW_FALLBACK_H, RAW_FALLBACK_H2, RAW_FALLBACK_H3)
 
 
 def pool_sources(thorough: bool) -> list[dict]:
@@ -274,7 +281,7 @@ def task_build_pool(args) -> list[dict]:
         pool.append({"kind": "decompile", "name": "compiled-" + name, "routines": desc})
         if name == "strings":
             pool.append({"kind": "decompile-ssbscript", "name": "ssbscript-of-" + name, "routines": desc})
-    for raw in (RAW_FALLBACK_H, RAW_SWITCH_O, RAW_FALLBACK_CASE):
+    for raw in RAW_POOL_SETS:
         pool.append({"kind": "decompile", "name": raw["name"], "routines": {"table": raw["table"], "routines": raw["routines"]}})
     return pool
 
@@ -697,12 +704,16 @@ def run(ctx: Ctx) -> PropResult:
                 )
             res.standins.append(StandIn(contract="I: " + CONTRACT_I, tier="T3", bound="const string and language string; shared inside one routine set / reused in a second set", evaluations=n_ind, distinct_nontrivial=4, exhaustive=False, samples=["flag_Set($X, P); if (debug) { talk(P); }  with one object P = 'l1\\nl2'"]))
             # ---- G
-            h_call = next(c for c in pool if c["name"] == RAW_FALLBACK_H["name"])
             o_call = next(c for c in pool if c["name"] == RAW_SWITCH_O["name"])
-            attacks = fresh.map(task_cache_attack, [(root, h_call, o_call, n_h, 300) for n_h in (1, 2, 3, 5, 50)], chunksize=1)
+            h_calls = [{"kind": "decompile", "name": raw["name"], "routines": {"table": raw["table"], "routines": raw["routines"]}} for raw in RAW_ATTACK_H]
+            attack_jobs = [(root, h, o_call, n_h, 300) for h in h_calls for n_h in (1, 3, 50)]
+            attacks = fresh.map(task_cache_attack, attack_jobs, chunksize=1)
+            for a_, j_ in zip(attacks, attack_jobs):
+                a_["h"] = j_[1]["name"]
             res.extra["cache_attack"] = [{k: v for k, v in a.items() if k not in ("clean", "got")} for a in attacks]
             hit = next((a for a in attacks if a["hit_at"] is not None), None)
             if hit is not None:
+                h_call = next(h for h in h_calls if h["name"] == hit["h"])
                 res.violations.append(
                     Violation(
                         signature="C11:G:stale-cache-entry-of-dead-graph-used:decompile:switch-only:after:fallback-after-branch-lookup",
@@ -712,7 +723,9 @@ def run(ctx: Ctx) -> PropResult:
                         observed=hit,
                     )
                 )
-            res.standins.append(StandIn(contract="G: " + CONTRACT_G, tier="T3", bound="history = 1/2/3/5/50 fallback conversions, then up to 300 conversions of the switch-only set, gc.collect() between calls", evaluations=sum(300 if a["hit_at"] is None else a["hit_at"] + 1 for a in attacks), distinct_nontrivial=5, exhaustive=False, samples=[RAW_FALLBACK_H["routines"][0]["ops"], RAW_SWITCH_O["routines"][0]["ops"]]))
+            if not any(a["stale_entries_after_history"] for a in attacks):
+                res.self_check_failures.append("clause G: none of the fallback routine sets leaves an entry in the cache any more - the attack is vacuous, pick new ones")
+            res.standins.append(StandIn(contract="G: " + CONTRACT_G, tier="T3", bound="3 fallback routine sets x history of 1/3/50 conversions, then up to 300 conversions of the switch-only set, gc.collect() between calls", evaluations=sum(300 if a["hit_at"] is None else a["hit_at"] + 1 for a in attacks), distinct_nontrivial=9, exhaustive=False, samples=[RAW_FALLBACK_H["routines"][0]["ops"], RAW_SWITCH_O["routines"][0]["ops"]]))
             timing["I_G"] = round(time.time() - t0, 1)
             # ---- observation: CLI counter
             res.extra["cli_decompile_counter"] = fresh.apply(task_cli_counter, (root,))
@@ -722,7 +735,7 @@ def run(ctx: Ctx) -> PropResult:
     res.rule = (
         "pool (quick: 12 calls, thorough: 14) = compile calls (valid with macros, [thorough: valid big,] valid with an import, parse error, SsbCompilerError inside a nested "
         "block, ValueError inside a macro, SsbScript source) + decompile calls (compiler output of three sources, the SsbScript "
-        "decompiler on one of them, three hand-written routine sets: two falling back to SsbScript, one switch-only). distinct = "
+        "decompiler on one of them, three hand-written routine sets: two falling back to SsbScript after a cache lookup (one with a multi-line string), one switch-only). distinct = "
         "words over the pool; a word is non-trivial when it has >= 2 calls (all have)."
     )
     res.assumptions = [
